@@ -64,9 +64,9 @@ func c09Scenarios(seed int64, n int, pairs bool) []c09Scenario {
 					fks = append(fks, "noExec")
 				}
 				for _, f1 := range fks {
-					for _, cyc := range []int{0, 1, 3} {
+					for _, cyc := range []int{-1, 0, 1, 3} {
 						sc := c09Scenario{FanKind: fk, SensorKind: sk, CurveKind: ck,
-							Faults: []c09Fault{{Kind: f1, Cycle: cyc, N: 1 + r.Intn(3)}}, Seed: r.Int63()}
+							Faults: []c09Fault{{Kind: f1, Cycle: cyc, N: 1 + r.Intn(4)}}, Seed: r.Int63()}
 						all = append(all, sc)
 						if pairs {
 							f2 := fks[r.Intn(len(fks))]
@@ -271,7 +271,7 @@ func runC09Scenario(rec *Recorder, sc c09Scenario) {
 	rf.CurveID = "c09curve"
 	var sensor sensors.Sensor
 	sensorDir := filepath.Join(dir, "sensor")
-	cfg := RunCfg{Parallel: true, Dir: dir, Fans: []RunFan{rf}}
+	cfg := RunCfg{Parallel: true, Dir: dir, Fans: []RunFan{rf}, RpmPollMs: []int{200, 1000}[r.Intn(2)]}
 	cfg.Setup = func(env *Env) {
 	// --- sensor
 	sid := "c09sensor"
@@ -344,19 +344,19 @@ func runC09Scenario(rec *Recorder, sc c09Scenario) {
 			if sc.SensorKind == "cmd" {
 				fileFault(filepath.Join(sensorDir, "fault"), mode)
 			} else {
-				h.ReadFault("s.temp", f.N)
+				h.ReadFaultSkip("s.temp", f.N, f.N%2)
 			}
 		case "rpmRead":
 			if sc.FanKind == "cmd" {
-				fileFault(filepath.Join(cmdSub, "fault_rpm"), "fail")
+				fileFault(filepath.Join(cmdSub, "fault_rpm"), []string{"fail", "garbage", "blank", "crlf"}[f.N%4])
 			} else {
-				h.ReadFault("f1.rpm", f.N)
+				h.ReadFaultSkip("f1.rpm", f.N, f.N%2)
 			}
 		case "pwmRead":
 			if sc.FanKind == "cmd" {
-				fileFault(filepath.Join(cmdSub, "fault_get"), []string{"fail", "garbage"}[f.N%2])
+				fileFault(filepath.Join(cmdSub, "fault_get"), []string{"fail", "garbage", "blank", "crlf"}[f.N%4])
 			} else {
-				h.ReadFault("f1.pwm", f.N)
+				h.ReadFaultSkip("f1.pwm", f.N, f.N%2)
 			}
 		case "pwmWrite":
 			if sc.FanKind == "cmd" {
